@@ -96,7 +96,7 @@ theorem handleConfig_inv {env : Env} {r : Req} {p : Bytes} {s : State} (hi : Inv
       · exact change_inv hi hp
 
 theorem handleConfig_rejected {env : Env} {r : Req} {p : Bytes} {s : State} (hi : Inv s) (hp : underConfig p)
-    (hk : hasCfgKey s.rawCfg = true) (h : (handleConfig env r p s).2.rejected = true) :
+    (h : (handleConfig env r p s).2.rejected = true) :
     (handleConfig env r p s).1 = s := by
   unfold handleConfig at h ⊢
   split
@@ -112,7 +112,7 @@ theorem handleConfig_rejected {env : Env} {r : Req} {p : Bytes} {s : State} (hi 
       · next hc =>
         simp only [hc, if_false] at h
         have := changeResp_rejected h
-        exact change_rejected hi hp hk this.1 this.2
+        exact change_rejected hi hp this.1 this.2
 
 theorem serve_inv {env : Env} {r : Req} {s : State} (hi : Inv s) : Inv (serve env r s).1 := by
   unfold serve
@@ -128,7 +128,7 @@ theorem serve_inv {env : Env} {r : Req} {s : State} (hi : Inv s) : Inv (serve en
       · exact hi
       · exact hi
 
-theorem serve_rejected {env : Env} {r : Req} {s : State} (hi : Inv s) (hk : hasCfgKey s.rawCfg = true)
+theorem serve_rejected {env : Env} {r : Req} {s : State} (hi : Inv s)
     (h : (serve env r s).2.rejected = true) : (serve env r s).1 = s := by
   unfold serve at h ⊢
   split
@@ -136,7 +136,7 @@ theorem serve_rejected {env : Env} {r : Req} {s : State} (hi : Inv s) (hk : hasC
   · rfl
   · next hr =>
     simp only [hr] at h
-    exact handleConfig_rejected hi (underConfig_of_prefix (route_config hr)) hk h
+    exact handleConfig_rejected hi (underConfig_of_prefix (route_config hr)) h
   · next hr =>
     simp only [hr] at h
     split
@@ -147,7 +147,7 @@ theorem serve_rejected {env : Env} {r : Req} {s : State} (hi : Inv s) (hk : hasC
       split
       · next hr2 =>
         simp only [hr2] at h
-        exact handleConfig_rejected hi (underConfig_of_prefix (route_config hr2)) hk h
+        exact handleConfig_rejected hi (underConfig_of_prefix (route_config hr2)) h
       · rfl
       · rfl
 
